@@ -7,7 +7,7 @@
    parser-shaped input is decided by the falsifier and the correspondence only. *)
 From Coq Require Import ZArith List String.
 From BB Require Import Base.PyBase Gen.Encoders Model.Items Model.Encode Model.Passes
-  Proofs.Layout Proofs.Pipeline Proofs.Errors Proofs.Examples.
+  Proofs.Layout Proofs.Pipeline Proofs.Errors Proofs.Examples Model.Parser Proofs.ParseErrors.
 Import ListNotations.
 Open Scope Z_scope.
 
@@ -31,6 +31,39 @@ Theorem C15_expression_faults :
     (forall l', eeval hi lo l (Some p) (fun k => match get k with Some _ => true | None => false end) get e = PErr (PAsm l') -> l' = l).
 Proof. intros. split. intro x. apply eeval_no_raw; auto. intro l'. apply eeval_line. Qed.
 Print Assumptions C15_expression_faults.
+
+(* malformed expression, at the PARSER: parse_immediate, on ANY token list, either returns a parser-shaped expression (so the
+   theorem above applies to it), or raises the assembler's own error at the line it was given -- a truncated or over-long
+   %hi / %lo / %offset / %position form never escapes as a raw ValueError / IndexError from the tuple unpacking.
+   (False of the code before repo commit 724a92b, defect D21.)  FUnsup: expression text outside the PyExpr model. *)
+Theorem C15_malformed_expression :
+  forall (imm : list string) (l : line),
+    match Parser.parse_immediate imm l with
+    | Parser.FOk e => expr_ok e = true
+    | Parser.FErr (PAsm l') => l' = l
+    | Parser.FErr (PRaw _) => False
+    | Parser.FUnsup => True
+    end.
+Proof. exact ParseErrors.parse_immediate_good. Qed.
+Print Assumptions C15_malformed_expression.
+Example C15_malformed_expression_example : forall l,
+  Parser.parse_immediate ["%hi"; "("]%string l = Parser.FErr (PAsm l) /\ Parser.parse_immediate ["%lo"]%string l = Parser.FErr (PAsm l) /\
+  Parser.parse_immediate ["%offset"; "("]%string l = Parser.FErr (PAsm l) /\
+  Parser.parse_immediate ["%position"; "("; "x"]%string l = Parser.FErr (PAsm l) /\
+  Parser.parse_immediate ["%offset"; "a"; "b"]%string l = Parser.FErr (PAsm l).
+Proof. exact ParseErrors.malformed_refused. Qed.
+
+(* operand out of range for align: `align N` with N < 1 (N = 0 made resolve_aligns divide by zero: defect D22, repo commit
+   bd05113) is refused by the parser with the assembler's error at its line; an Align item always carries N >= 1 *)
+Theorem C15_align_operand :
+  forall (l : line) (kw a : string), lower kw = "align"%string ->
+    match Parser.parse_item l [kw; a] with
+    | Parser.FOk it => exists n, it = IAlign n /\ 1 <= n
+    | Parser.FErr e => e = PAsm l
+    | Parser.FUnsup => False
+    end.
+Proof. exact ParseErrors.align_operand. Qed.
+Print Assumptions C15_align_operand.
 
 (* duplicate label: the label pass fails exactly at a SECOND definition (the line it names is a label item whose name
    was defined earlier), and a successful run means all label names are distinct *)
